@@ -32,8 +32,9 @@ func c39run(p uint32, n int64) c39Rec {
 
 // c39 <boundaryPerPrecision> <randomPerPrecision> <out>: for every target precision 0..18 the first
 // `boundary` values of a priority-ordered boundary list (range ends 2^53, int64 ends, first amounts
-// whose product leaves int64, powers of ten around the factor, negatives) and `random` seeded values
-// (alternating: inside the supported range [0, 2^53) / anywhere in int64).
+// whose product leaves int64, in-range amounts whose product crosses 2^53 and needs more than 53 bits,
+// negative non-multiples of the factor, powers of ten around the factor) and `random` seeded values
+// (rotating: product crossing 2^53 / inside the supported range [0, 2^53) / anywhere in int64 / negative).
 func c39(args []string) {
 	nb, err := strconv.Atoi(args[0])
 	kit.Must(err)
@@ -52,11 +53,24 @@ func c39(args []string) {
 			f *= 10
 		}
 		firstWrap := math.MaxInt64/f + 1 // smallest n with n*f > MaxInt64
-		b := []int64{
-			two53 - 1, 0, f + 1, firstWrap, firstWrap - 1, -1, math.MaxInt64, math.MinInt64,
-			1, f - 1, f, two53, two53 - 2, -f - 1, -f, math.MinInt64 + 1, 123456789012345, 99999999,
-			two53/2 + 7, -two53 + 1,
+		// in-range amounts whose product n*f lies between 2^53 and 2^63 and is NOT representable in a
+		// float64 mantissa (n*5^e >= 2^53, odd): exact integer arithmetic is required for them
+		pow5 := int64(1)
+		for i := 0; i < e; i++ {
+			pow5 *= 5
 		}
+		odd53 := (two53/pow5 + 7) | 1
+		hi := min(two53, firstWrap) // exclusive upper end of "in range and no int64 overflow"
+		var cross []int64
+		if e > 0 && odd53 < hi {
+			cross = []int64{odd53, (odd53 + (hi-odd53)/2) | 1, (hi - 3) | 1}
+		}
+		negNonMult := -(7*f + 3) // negative and not a multiple of the factor: floor vs truncation differ
+		b := []int64{two53 - 1, 0, f + 1, firstWrap, firstWrap - 1, -1, negNonMult}
+		b = append(b, cross...)
+		b = append(b, math.MaxInt64, math.MinInt64,
+			1, f-1, f, two53, two53-2, -f-1, -f, math.MinInt64+1, 123456789012345, 99999999,
+			two53/2+7, -two53+1, -(f/2 + 1), 476050998169135, 58409700650)
 		if f > 1 {
 			// first n whose product passes 2^64 (wraps around to small positive values again)
 			b = append(b, int64(math.MaxUint64/uint64(f))+1)
@@ -76,9 +90,17 @@ func c39(args []string) {
 		}
 		for i := 0; i < nr; i++ {
 			var n int64
-			if i%2 == 0 {
+			switch {
+			case i%4 == 0 && len(cross) > 0: // in range, product crosses 2^53 without leaving int64
+				n = (cross[0] + r.Int63n(hi-cross[0])) | 1
+				if n >= hi {
+					n = cross[0]
+				}
+			case i%4 == 3: // negative, most likely not a multiple of the factor
+				n = -r.Int63n(two53) - 1
+			case i%2 == 0:
 				n = r.Int63n(two53)
-			} else {
+			default:
 				n = int64(r.Uint64())
 			}
 			w.Emit(c39run(p, n))
